@@ -14,6 +14,7 @@ pub struct Duration {
 
 impl Duration {
     /// Create a new `Duration` from the given number of nanoseconds.
+    #[cfg_attr(kani, kani::ensures(|r: &Self| r.nanos == nanos))]
     pub fn new(nanos: u64) -> Self {
         Self { nanos }
     }
@@ -22,6 +23,8 @@ impl Duration {
     ///
     /// Panics if the number of milliseconds
     /// would overflow when converted to nanoseconds.
+    #[cfg_attr(kani, kani::requires(millis <= u64::MAX / 1_000_000))]
+    #[cfg_attr(kani, kani::ensures(|r: &Self| r.nanos == millis * 1_000_000))]
     pub fn from_millis(millis: u64) -> Self {
         let nanos = millis
             .checked_mul(NANOS_PER_MILLI as u64)
@@ -33,6 +36,8 @@ impl Duration {
     ///
     /// Panics if the number of seconds
     /// would overflow when converted to nanoseconds.
+    #[cfg_attr(kani, kani::requires(seconds <= u64::MAX / 1_000_000_000))]
+    #[cfg_attr(kani, kani::ensures(|r: &Self| r.nanos == seconds * 1_000_000_000))]
     pub fn from_secs(seconds: u64) -> Self {
         let nanos = seconds
             .checked_mul(NANOS_PER_SEC as u64)
@@ -42,6 +47,8 @@ impl Duration {
 }
 
 impl From<std::time::Duration> for Duration {
+    #[cfg_attr(kani, kani::requires(duration.as_secs() < 18_446_744_073 || (duration.as_secs() == 18_446_744_073 && duration.subsec_nanos() <= 709_551_615)))]
+    #[cfg_attr(kani, kani::ensures(|r: &Self| r.nanos == duration.as_secs() * 1_000_000_000 + duration.subsec_nanos() as u64))]
     fn from(duration: std::time::Duration) -> Self {
         Duration {
             nanos: duration.as_nanos() as u64,
@@ -50,6 +57,7 @@ impl From<std::time::Duration> for Duration {
 }
 
 impl From<Duration> for std::time::Duration {
+    #[cfg_attr(kani, kani::ensures(|r: &Self| r.subsec_nanos() < 1_000_000_000 && r.as_secs() <= u64::MAX / 1_000_000_000 && r.as_secs() * 1_000_000_000 + r.subsec_nanos() as u64 == duration.nanos))]
     fn from(duration: Duration) -> Self {
         std::time::Duration::from_nanos(duration.nanos)
     }
